@@ -31,12 +31,6 @@ macro_rules! is_signed {
     (isize) => {
         true
     };
-    (f32) => {
-        true
-    };
-    (f64) => {
-        true
-    };
     ($_t:ty) => {
         false
     };
@@ -67,20 +61,30 @@ invoke_macro_for_types!(
 radix_type!(bool, u8);
 
 impl RadixType for f32 {
-    const IS_SIGNED: bool = is_signed!(f32);
+    // the key below is order preserving as an unsigned integer
+    const IS_SIGNED: bool = false;
     fn key(&self, round: usize) -> u8 {
         // Interpret the bits of a float as if they were an integer.
         // This relies on the floats being in IEEE-754 format to work.
-        (self.to_bits() >> (round << 3)) as u8
+        // Floats are sign-magnitude: flip all bits of negative values (larger
+        // magnitude means smaller value) and the sign bit of the others.
+        let bits = self.to_bits();
+        let ordered = if bits >> 31 == 1 { !bits } else { bits | (1 << 31) };
+        (ordered >> (round << 3)) as u8
     }
 }
 
 impl RadixType for f64 {
-    const IS_SIGNED: bool = is_signed!(f64);
+    // the key below is order preserving as an unsigned integer
+    const IS_SIGNED: bool = false;
     fn key(&self, round: usize) -> u8 {
         // Interpret the bits of a float as if they were an integer.
         // This relies on the floats being in IEEE-754 format to work.
-        (self.to_bits() >> (round << 3)) as u8
+        // Floats are sign-magnitude: flip all bits of negative values (larger
+        // magnitude means smaller value) and the sign bit of the others.
+        let bits = self.to_bits();
+        let ordered = if bits >> 63 == 1 { !bits } else { bits | (1 << 63) };
+        (ordered >> (round << 3)) as u8
     }
 }
 pub trait Sort {
